@@ -61,6 +61,33 @@ def nf_errors(r):
         if i == 0 and g != '': errs.append('whitespace before the first token')
         if tx in (';', ':') and g != '' and '\n' not in g: errs.append('space before %s' % tx)
     if re.search(r'[ \t]+\n', tail) or tail.count('\n') > 2: errs.append('trailing whitespace at end')
+    # last clause of C18: own-line comments and closing delimiters are indented with the structure they belong to —
+    # a closing delimiter that starts a line stands at the indentation of the line that holds its opener; an own-line comment
+    # stands at the indentation of the code line it precedes (two further in when what follows is the closing delimiter)
+    text = ''; info = []
+    for g, ty, tx in toks:
+        text += g; start = len(text); ls = text.rfind('\n') + 1
+        first = text[ls:start].strip(' ') == ''
+        line = text[ls:] if not first else None
+        info.append((first, len(text[ls:start]) if first else len(line) - len(line.lstrip(' ')))); text += tx
+    stack = []
+    for (g, ty, tx), (first, ind) in zip(toks, info):
+        if ty == 'comment': continue
+        if tx in ('{', '[', '('): stack.append(ind)
+        elif tx == '${': stack.append(None)
+        elif tx in ('}', ']', ')') and stack:
+            o = stack.pop()
+            if first and o is not None and ind != o: errs.append('closing delimiter not at the indentation of its opener\'s line')
+    n = len(toks)
+    for i, ((g, ty, tx), (first, ind)) in enumerate(zip(toks, info)):
+        if ty != 'comment' or not first: continue
+        j = i + 1
+        while j < n and toks[j][1] == 'comment' and info[j][0]: j += 1
+        if j >= n or not info[j][0] or toks[j][1] == 'comment': continue
+        nxt = toks[j][2]
+        if nxt in ('in', 'then', 'else'): continue
+        exp = info[j][1] + 2 if nxt in ('}', ']', ')') else info[j][1]
+        if ind != exp: errs.append('own-line comment not indented with what follows it')
     return errs
 
 def judge(prop, p, r, rebuild, line_level=True):
